@@ -144,7 +144,8 @@ def rule_lemma_premises(ctx: Ctx) -> None:
     exits = margin_rule_early_exits(ctx)
     tables = [e["table"] for e in exits if e["table"] is not None and e.get("quantifier") == "all"]
     okm = any(t["new==old"] is True and t["new<old"] is True for t in tables)
-    fn = ctx.func("basana.backtesting.lending.margin.MarginLoans._check_margin_level")
+    from .common import margin_check_fn
+    fn = margin_check_fn(ctx)
     ctx.check(okm, "C07.2", "premise of L1/L2: the margin rule does not judge updates that do not borrow", fn, fn.node,
               f"early exit tables {tables}", "the margin rule is evaluated on releases/holds: with a low margin level "
               "cancel_order raises after the order was already cancelled (failed cancellation leaves the order closed, funds "
